@@ -205,7 +205,7 @@ def cache_xml_versions(hed_base_urls=DEFAULT_URL_LIST, hed_library_urls=DEFAULT_
                 for version, version_info in hed_versions.items():
                     _cache_hed_version(version, library_name, version_info, cache_folder=cache_folder)
 
-    except CacheException or ValueError or URLError:
+    except (CacheException, ValueError, URLError):
         return -1
 
     return 0
